@@ -46,8 +46,6 @@ Lemma amemb_true a l : amemb a l = true -> exists b, In b l /\ code b = code a.
 Proof. unfold amemb. intros H. apply memb_In in H. apply in_map_iff in H. destruct H as [b [H1 H2]].
   exists b. split; assumption. Qed.
 
-(* the cycle set contains only per-mapper records *)
-Definition cyc_shape (cy : list N) : bool := forallb (fun n => N.ltb (N.modulo n 7) 3) cy.
 
 Lemma mod7 q r : r < 7 -> (7 * q + r) mod 7 = r.
 Proof. intros H. rewrite N.add_comm, N.mul_comm. rewrite N.mod_add by lia. apply N.mod_small. exact H. Qed.
@@ -125,12 +123,6 @@ Proof. intros H0 H1 H2 H3 H4. unfold final_items. apply filter_In. split.
   - unfold clean in H3. rewrite H3, H4. reflexivity. Qed.
 
 (* ---------------------------------------------------------------- layers *)
-Fixpoint lidx (r : list (list N)) (n : N) : option nat :=
-  match r with
-  | [] => None
-  | l :: r' => if memb n l then Some O else match lidx r' n with Some k => Some (S k) | None => None end
-  end.
-
 Lemma lidx_notin r n : ~ In n (concat r) -> lidx r n = None.
 Proof. induction r as [|l r IH]; simpl; intros H; [reflexivity|].
   destruct (memb n l) eqn:M; [exfalso; apply H, in_or_app; left; apply memb_In, M|].
